@@ -244,14 +244,22 @@ def s3(ctx, rep):
     for r in returns_of(f):
         d0 = dict_items(r.value) or d0
     mrn = U(d0["milestone_reached"]) if d0 and "milestone_reached" in d0 else "?"
+    # the places that answer 'milestone reached': the flag set to True, or a result returned with the constant True
     mr = [n for n in cfg.nodes if n.kind == "stmt" and isinstance(n.ast, ast.Assign) and U(n.ast.targets[0]) == mrn
           and isinstance(n.ast.value, ast.Constant) and n.ast.value.value is True]
+    mr += [n for n in cfg.nodes if n.kind == "stmt" and isinstance(n.ast, ast.Return) and isinstance((dict_items(n.ast.value) or {}).get("milestone_reached"), ast.Constant)
+           and (dict_items(n.ast.value) or {})["milestone_reached"].value is True]
     ok = len(mr) == 1 and bool(asserts) and cfg.path(cfg.entry, mr[0].id, deleted={asserts[0].id}) is None
     rep.put(ok, "S3", "must_precede", "PromotionRungSystem.on_task_report: milestone_reached only after the exact-level assert", f, None, "")
     d = None
     for r in returns_of(f):
         d = dict_items(r.value) or d
     ok = d is not None and U(d.get("task_continues")) == f"not {mrn}"
+    if not ok:
+        # every returned result carries the two as opposite constants
+        ds_ = [dict_items(r.value) or {} for r in returns_of(f)]
+        ok = bool(ds_) and all(isinstance(x.get("task_continues"), ast.Constant) and isinstance(x.get("milestone_reached"), ast.Constant)
+                               and isinstance(x["task_continues"].value, bool) and x["task_continues"].value is (not x["milestone_reached"].value) for x in ds_)
     rep.put(ok, "S3", "agreement", "PromotionRungSystem.on_task_report: task_continues == not milestone_reached", f, None, "",
             "a trial does not pause exactly when it reaches its milestone")
     ms = [d_ for d_ in local_defs(f, mv) if not isinstance(d_, tuple)]
